@@ -158,8 +158,9 @@ impl DynamicVersionPolicy for ClientSpecifiesVersionInHeader {
         request: &Request<Body>,
         _log: &Logger,
     ) -> Result<Version, HttpError> {
-        let v = parse_header(request.headers(), &self.name)?;
-        if v <= self.max_version {
+        let v: Version = parse_header(request.headers(), &self.name)?;
+        // semver precedence: build metadata does not make a version newer
+        if v.cmp_precedence(&self.max_version) != std::cmp::Ordering::Greater {
             Ok(v)
         } else {
             Err(HttpError::for_bad_request(
